@@ -99,8 +99,9 @@ def main(argv=None):
             discharged.append(t); assumptions[t] = "Axioms: " + ", ".join(st)
         else:
             broken.append(f"theorem {t} of coq/Props/{prop}.v is not checked" + (f" (depends on {st})" if st else ""))
-    if b["failed"]:
-        for f in b["failed"]:
+    closure = build.dep_closure(f"Props/{prop}.v")
+    for f in b["failed"]:
+        if f in closure or f.startswith("ocaml") or f.startswith("Extract") or f.startswith("Gen/"):
             broken.append(f"coq file {f} does not compile on the model regenerated from /repo")
 
     # 2. the property module: correspondence impl vs model, property oracle on the implementation, known-finding replays
